@@ -178,6 +178,9 @@ pub struct Driver {
     pub next_id: u32,
     pub tag: u32,
     pub failed: bool,
+    pub soft_failed: bool,
+    /// the property whose check is running ("" = none given)
+    pub primary: String,
     pub ooc: bool,
     pub digest: u64,
     pub steps: u64,
@@ -203,6 +206,8 @@ impl Driver {
             next_id: 1,
             tag: 1,
             failed: false,
+            soft_failed: false,
+            primary: String::new(),
             ooc: false,
             digest: 0,
             steps: 0,
@@ -224,7 +229,18 @@ impl Driver {
 
     pub fn viol(&mut self, prop: &str, sig: &str, detail: &str) {
         let _p = mem::pause();
-        self.failed = true;
+        // address / uniqueness findings leave the values intact: the history goes on so that one
+        // property's finding cannot hide another's (only the end-of-history balance is skipped)
+        // A finding aborts the history only if it belongs to the property being checked or means that
+        // values / memory can no longer be trusted (C01, C02). Findings of other monitors are recorded
+        // (the orchestrator lists them as collateral) and the history goes on, so that one property's
+        // finding cannot hide another's; only the end-of-history balance is skipped then.
+        let hard = prop == self.primary || prop == "C01" || prop == "C02" || (self.primary.is_empty() && prop != "C07" && prop != "C08");
+        if hard {
+            self.failed = true;
+        } else {
+            self.soft_failed = true;
+        }
         let tr = if self.trace.len() > 40 {
             format!("...{}", self.trace[self.trace.len() - 40..].join("; "))
         } else {
@@ -268,6 +284,7 @@ impl Driver {
             self.trace.clear();
         }
         self.failed = false;
+        self.soft_failed = false;
         self.digest = 0;
         self.hist_steps = 0;
         self.tag = self.tag.wrapping_add(1).max(2);
@@ -320,7 +337,7 @@ impl Driver {
             self.trace.clear();
             self.trace.shrink_to_fit();
         }
-        if mem::ENABLED && !self.failed {
+        if mem::ENABLED && !self.failed && !self.soft_failed {
             let (c, b) = mem::tagged_live(self.tag);
             self.count("balance_checks");
             if c != 0 {
